@@ -93,12 +93,14 @@ static void build_pool()
 	for (size_t n : {255, 256}) { addp(fmt("a.k%zu", n), "a." + KN(n)); addp(fmt("k%zu.a", n), KN(n) + ".a"); }
 }
 // value lengths: short, empty, last length of the compact text metatype (249), first lengths that need another representation (250, 255), long
-static std::vector<std::string> values() { return { "x", "yy", "", std::string(249, 'z'), std::string(250, 'z'), std::string(255, 'z'), std::string(300, 'z') }; }
-enum { V_X = 0, V_YY, V_EMPTY, V_249, V_250, V_255, V_300 };
+static std::vector<std::string> values() { return { "x", "yy", "", std::string(249, 'z'), std::string(250, 'z'), std::string(255, 'z'), std::string(300, 'z'), std::string(256, 'y') }; }
+enum { V_X = 0, V_YY, V_EMPTY, V_249, V_250, V_255, V_300, V_256 };
 
 enum Kind { GLOBAL = 0, VIEW = 1, CXX = 2 };
 static const char *kindname[] = { "global", "view", "cxx" };
-enum OpKind { ASSIGN = 0, REMOVE = 1, DEL = 2 };
+// COPY: assign(P, pointer obtained by querying Q) — the value handed to the store lives inside the store (Q may be P itself)
+enum OpKind { ASSIGN = 0, REMOVE = 1, DEL = 2, COPY = 3 };
+static const char *opword(int kind) { return kind == ASSIGN ? "assign" : (kind == COPY ? "copy" : "remove"); }
 struct OpSpec { int target;  /* 0 = main interface, 1 = view interface */ int kind; int path; int value; };
 struct Job {
 	std::string name; int kind; int depth;
@@ -106,10 +108,12 @@ struct Job {
 	std::vector<OpSpec> ops;
 	std::vector<int> viewq;           // paths queried through the view (relative)
 };
-static void add_ops(Job &j, int target, const std::vector<std::string> &paths, const std::vector<int> &vals, bool withdel = false)
+static void add_ops(Job &j, int target, const std::vector<std::string> &paths, const std::vector<int> &vals, bool withdel = false, bool pairs = false)
 {
 	for (auto &p : paths) {
 		for (int v : vals) j.ops.push_back(OpSpec{target, ASSIGN, P(p), v});
+		// touch (copy P <- P) in every alphabet, copy from every other path in the alias alphabets
+		for (auto &q : paths) if (pairs || q == p) j.ops.push_back(OpSpec{target, COPY, P(p), P(q)});
 		j.ops.push_back(OpSpec{target, REMOVE, P(p), 0});
 		if (withdel) j.ops.push_back(OpSpec{target, DEL, P(p), 0});
 		if (target == 1 && std::find(j.viewq.begin(), j.viewq.end(), P(p)) == j.viewq.end()) j.viewq.push_back(P(p));
@@ -121,38 +125,41 @@ static std::vector<Job> make_jobs(Tier t)
 	std::vector<Job> jobs;
 	int dq = 4, dt = 16;    // depth bound quick / thorough (thorough normally reaches closure before the bound)
 	int D = t == Quick ? dq : dt;
-	struct Alpha { const char *name; std::vector<std::string> paths; std::vector<int> vals; int dquick; };
+	struct Alpha { const char *name; std::vector<std::string> paths; std::vector<int> vals; int dquick; bool pairs; };
 	std::vector<Alpha> alphas = {
-		{ "chain",    { "a", "a.b", "a.b.c", "a.c" },               { V_X, V_YY }, 4 },
-		{ "siblings", { "a", "ab", "b", "a.b", "b.a" },             { V_X, V_YY }, 3 },
-		{ "empty",    { "''", "a.", ".a", "a..b", "a" },            { V_X, V_YY }, 3 },
-		{ "repeat",   { "a", "a.a", "a.a.a", "b.b" },               { V_X, V_YY }, 4 },
-		{ "sep",      { "a.b", "a/b", "a/b.c", "a.b.c", "a.b=q" },  { V_X, V_YY }, 3 },
-		{ "root",     { "<root>", "a", "a.b", "b", "b=" },          { V_X },       4 },
-		{ "endchar",  { "c", "c(end==)", "b", "b=" },               { V_X, V_YY }, 3 },
-		{ "three",    { "a", "b", "c" },                            { V_X },       5 },
-		{ "len-s",    { "k11", "k12", "k19", "k20" },               { V_X },       4 },
-		{ "len-l",    { "k211", "k212", "k254", "k255", "k256", "k300" }, { V_X }, 3 },
-		{ "len-n",    { "a", "a.k255", "a.k256", "k255.a", "k256.a" }, { V_X },    3 },
-		{ "values",   { "a", "a.b" },                               { V_X, V_EMPTY, V_249, V_250, V_255, V_300 }, 3 },
+		{ "chain",    { "a", "a.b", "a.b.c", "a.c" },               { V_X, V_YY }, 4, false },
+		{ "siblings", { "a", "ab", "b", "a.b", "b.a" },             { V_X, V_YY }, 3, false },
+		{ "empty",    { "''", "a.", ".a", "a..b", "a" },            { V_X, V_YY }, 3, false },
+		{ "repeat",   { "a", "a.a", "a.a.a", "b.b" },               { V_X, V_YY }, 4, false },
+		{ "sep",      { "a.b", "a/b", "a/b.c", "a.b.c", "a.b=q" },  { V_X, V_YY }, 3, false },
+		{ "root",     { "<root>", "a", "a.b", "b", "b=" },          { V_X },       4, false },
+		{ "endchar",  { "c", "c(end==)", "b", "b=" },               { V_X, V_YY }, 3, false },
+		{ "three",    { "a", "b", "c" },                            { V_X },       5, false },
+		{ "len-s",    { "k11", "k12", "k19", "k20" },               { V_X },       4, false },
+		{ "len-l",    { "k211", "k212", "k254", "k255", "k256", "k300" }, { V_X }, 3, false },
+		{ "len-n",    { "a", "a.k255", "a.k256", "k255.a", "k256.a" }, { V_X },    3, false },
+		{ "values",   { "a", "a.b" },                               { V_X, V_EMPTY, V_249, V_250, V_255, V_300 }, 3, false },
+		{ "alias-s",  { "a", "a.b", "b" },                          { V_X, V_YY }, 3, true },
+		{ "alias-l",  { "a", "b" },                                 { V_X, V_249, V_250, V_255, V_256, V_300 }, 3, true },
 	};
 	for (int kind : { GLOBAL, CXX }) for (auto &a : alphas) {
 		Job j; j.kind = kind; j.name = std::string("store:") + kindname[kind] + ":" + a.name; j.depth = t == Quick ? a.dquick : D;
-		add_ops(j, 0, a.paths, a.vals, kind == CXX);
+		add_ops(j, 0, a.paths, a.vals, kind == CXX, a.pairs);
 		jobs.push_back(j);
 	}
 	// sub-tree views: operations through the view (relative paths) interleaved with operations through the process-wide interface
-	struct VAlpha { const char *name, *base; std::vector<std::string> vpaths, gpaths; std::vector<int> vals; int dquick; };
+	struct VAlpha { const char *name, *base; std::vector<std::string> vpaths, gpaths; std::vector<int> vals; int dquick; bool pairs; };
 	std::vector<VAlpha> valphas = {
-		{ "top",    "a",   { "<root>", "b", "b.c" },   { "a", "a.b" },          { V_X, V_YY }, 4 },
-		{ "nested", "a.b", { "<root>", "c", "c.d" },   { "a", "a.b", "a.b.c" }, { V_X },       4 },
-		{ "fresh",  "v.w", { "k", "<root>" },          { "v", "v.k", "b" },     { V_X, V_YY }, 4 },
-		{ "values", "a",   { "b", "<root>" },          { "a" },                 { V_X, V_EMPTY, V_250, V_300 }, 3 },
+		{ "top",    "a",   { "<root>", "b", "b.c" },   { "a", "a.b" },          { V_X, V_YY }, 4, false },
+		{ "nested", "a.b", { "<root>", "c", "c.d" },   { "a", "a.b", "a.b.c" }, { V_X },       4, false },
+		{ "fresh",  "v.w", { "k", "<root>" },          { "v", "v.k", "b" },     { V_X, V_YY }, 4, false },
+		{ "values", "a",   { "b", "<root>" },          { "a" },                 { V_X, V_EMPTY, V_250, V_300 }, 3, false },
+		{ "alias",  "a",   { "<root>", "b" },          { "a", "a.b" },          { V_X, V_250, V_256 }, 3, true },
 	};
 	for (auto &a : valphas) {
 		Job j; j.kind = VIEW; j.name = std::string("store:view:") + a.name; j.depth = t == Quick ? a.dquick : D; j.base = a.base;
-		add_ops(j, 1, a.vpaths, a.vals);
-		add_ops(j, 0, a.gpaths, { V_X });
+		add_ops(j, 1, a.vpaths, a.vals, false, a.pairs);
+		add_ops(j, 0, a.gpaths, { V_X }, false, a.pairs);
 		jobs.push_back(j);
 	}
 	return jobs;
@@ -450,14 +457,38 @@ struct Sys {
 		const PSpec &p = pool[o.path];
 		mpt::config *c = iface(o.target);
 		Key K = full(o.target, p);
-		const std::string &v = vals[o.value];
-		const char *opn = o.kind == ASSIGN ? "assign" : (o.kind == REMOVE ? "remove" : "del");
-		std::string opsig = std::string(o.kind == ASSIGN ? "assign" : "remove") + "|" + store(o.target) + "|" + pclass(p);
-		std::string desc = fmt("%s %s %s%s via %s", opn, p.label.c_str(), key_str(K).c_str(), o.kind == ASSIGN ? (" := '" + abbrev(v) + "'").c_str() : "", store(o.target));
+		std::string v = o.kind == COPY ? std::string() : vals[o.value];
+		const char *vptr = 0;        // COPY: address of the source value inside the store
+		const char *opn = o.kind == ASSIGN ? "assign" : (o.kind == REMOVE ? "remove" : (o.kind == COPY ? "copy" : "del"));
+		std::string opsig = std::string(opword(o.kind)) + "|" + store(o.target) + "|" + pclass(p);
+		if (o.kind == COPY) {
+			const PSpec &q = pool[o.value];
+			Key QK = full(o.target, q);
+			mpt::path qq(q.null ? 0 : q.text.c_str(), q.sep, q.assign);
+			int r = LIB(mpt::mpt_config_getp(c, &qq, 's', &vptr));
+			if (r == mpt::BadType) {
+				struct iovec vec = { 0, 0 };
+				r = LIB(mpt::mpt_config_getp(c, &qq, MPT_type_toVector('c'), &vec));
+				vptr = r >= 0 && vec.iov_base && memchr(vec.iov_base, 0, vec.iov_len) ? (const char *) vec.iov_base : 0;
+			}
+			if (r < 0 || !vptr) {
+				// nothing to copy: the step is a no-op (state unchanged, merged by the dedupe)
+				out.count("copy:source-absent(no-op)");
+				if (g_notes) out.notes.push_back("op copy " + p.label + " <- " + q.label + ": source holds no value, skipped");
+				if (check) sweep(opsig, K, ASSIGN, "copy " + p.label + " <- " + q.label + " (source absent, nothing done)");
+				return !bad;
+			}
+			auto it = val.find(QK);
+			v = it != val.end() ? it->second : std::string(vptr);
+			out.count(QK == K ? "copy:onto-itself" : "copy:from-other-path");
+		}
+		bool isassign = o.kind == ASSIGN || o.kind == COPY;
+		std::string desc = o.kind == COPY ? fmt("copy %s %s <- value pointer obtained by querying %s ('%s') via %s", p.label.c_str(), key_str(K).c_str(), pool[o.value].label.c_str(), abbrev(v).c_str(), store(o.target))
+		                 : fmt("%s %s %s%s via %s", opn, p.label.c_str(), key_str(K).c_str(), o.kind == ASSIGN ? (" := '" + abbrev(v) + "'").c_str() : "", store(o.target));
 		// classification (vacuity counters)
 		bool exists = val.count(K) != 0, below = false, above = false;
 		for (auto &x : val) { if (x.first != K && is_prefix(x.first, K) && !x.first.empty()) below = true; if (x.first != K && is_prefix(K, x.first)) above = true; }
-		if (o.kind == ASSIGN) {
+		if (isassign) {
 			out.count(exists ? "assign:overwrite" : "assign:fresh");
 			if (below) out.count("assign:beneath-a-valued-path");
 			if (above) out.count("assign:above-valued-paths");
@@ -470,9 +501,10 @@ struct Sys {
 		asan_error();
 		phase(opn);
 		int ret;
-		if (o.kind == ASSIGN) {
-			if (job.kind == CXX && !p.assign && !p.null) { bool ok = LIB(root->set(p.text.c_str(), v.c_str(), p.sep)); ret = ok ? 0 : -1; }
-			else ret = LIB(mpt::mpt_config_set(c, p.null ? 0 : p.text.c_str(), v.c_str(), p.sep, p.assign));
+		if (isassign) {
+			const char *arg = o.kind == COPY ? vptr : v.c_str();
+			if (job.kind == CXX && !p.assign && !p.null) { bool ok = LIB(root->set(p.text.c_str(), arg, p.sep)); ret = ok ? 0 : -1; }
+			else ret = LIB(mpt::mpt_config_set(c, p.null ? 0 : p.text.c_str(), arg, p.sep, p.assign));
 		} else if (o.kind == DEL && job.kind == CXX && !p.null) {
 			LIB((root->del(p.text.c_str(), p.sep, (int) (p.assign ? p.text.find(p.assign) : p.text.size())), 0)); ret = 0;
 		} else {
@@ -483,7 +515,7 @@ struct Sys {
 		bool asan = asan_error();
 		// reference
 		bool view_root_remove = false;
-		if (o.kind == ASSIGN) {
+		if (isassign) {
 			// entries that the implementation may create on the way (existence of value-less entries is not specified)
 			for (size_t n = 1; n < K.size(); ++n) may.insert(Key(K.begin(), K.begin() + n));
 			if (o.target) { for (size_t n = 1; n <= base.size(); ++n) may.insert(Key(base.begin(), base.begin() + n)); }
@@ -509,7 +541,7 @@ struct Sys {
 			may.insert(K);
 		}
 		if (bad) return false;
-		if (check) sweep(opsig, K, o.kind, desc);
+		if (check) sweep(opsig, K, isassign ? ASSIGN : o.kind, desc);
 		return !bad;
 	}
 	// ---- teardown: clear the store, everything must be gone and released
@@ -553,8 +585,9 @@ static void warm_up(const Job &job)
 static std::string opname(const Job &job, int op)
 {
 	const OpSpec &o = job.ops[op]; static std::vector<std::string> vals = values();
-	std::string s = (o.kind == ASSIGN ? "assign " : (o.kind == REMOVE ? "remove " : "del ")) + pool[o.path].label;
+	std::string s = (o.kind == ASSIGN ? "assign " : (o.kind == REMOVE ? "remove " : (o.kind == COPY ? "copy " : "del "))) + pool[o.path].label;
 	if (o.kind == ASSIGN) s += ":='" + abbrev(vals[o.value]) + "'";
+	if (o.kind == COPY) s += "<-get(" + pool[o.value].label + ")";
 	if (job.kind == VIEW) s += o.target ? fmt(" (view@%s)", job.base.c_str()) : " (global)";
 	return s;
 }
@@ -566,7 +599,7 @@ static std::string fault_record(const Job &job, int op, const std::string &child
 	Out out;
 	std::string store = job.kind == VIEW ? (o.target ? "view" : "view,via-global") : kindname[job.kind];
 	std::string ph = g_phase ? g_phase : "?";
-	out.violation(std::string(o.kind == ASSIGN ? "assign" : "remove") + "|" + store + "|" + Sys::pclass(p).substr(0, Sys::pclass(p).find(',')) + "|" + why + (ph == "assign" || ph == "remove" || ph == "del" ? "" : ",in-" + ph),
+	out.violation(std::string(opword(o.kind)) + "|" + store + "|" + Sys::pclass(p).substr(0, Sys::pclass(p).find(',')) + "|" + why + (ph == "assign" || ph == "remove" || ph == "del" || ph == "copy" ? "" : ",in-" + ph),
 	              opname(job, op) + ": the process running this history ended with " + why + " during phase '" + ph + "'");
 	return ser(out);
 }
@@ -581,7 +614,7 @@ static std::string run_history(const Job &job, const Vec &hist, bool all)
 	for (size_t i = 1; i < hist.size() && ok; ++i) ok = s.apply(job.ops[hist[i]], all || i + 1 == hist.size());
 	if (ok) {
 		const OpSpec &o = job.ops[hist.size() > 1 ? hist.back() : 0];
-		s.teardown(std::string(hist.size() > 1 ? (o.kind == ASSIGN ? "assign" : "remove") : "init") + "|" + s.store(hist.size() > 1 ? o.target : 0) + "|" + (hist.size() > 1 ? Sys::pclass(pool[o.path]) : "-"),
+		s.teardown(std::string(hist.size() > 1 ? opword(o.kind) : "init") + "|" + s.store(hist.size() > 1 ? o.target : 0) + "|" + (hist.size() > 1 ? Sys::pclass(pool[o.path]) : "-"),
 		           hist.size() > 1 ? "history ending with " + opname(job, (int) hist.back()) : "empty history");
 	}
 	return ser(out);
@@ -602,7 +635,7 @@ static std::string expander(const Job &job, const Vec &hist)
 		std::string r = in_child([&]() {
 			out = Out();
 			bool good = s->apply(job.ops[op], true);
-			if (good) s->teardown(std::string(job.ops[op].kind == ASSIGN ? "assign" : "remove") + "|" + s->store(job.ops[op].target) + "|" + Sys::pclass(pool[job.ops[op].path]), "history ending with " + opname(job, (int) op));
+			if (good) s->teardown(std::string(opword(job.ops[op].kind)) + "|" + s->store(job.ops[op].target) + "|" + Sys::pclass(pool[job.ops[op].path]), "history ending with " + opname(job, (int) op));
 			return ser(out);
 		}, 30);
 		if (!r.empty() && r[0] == '\x01') r = fault_record(job, (int) op, r);
@@ -628,14 +661,14 @@ static Out step_inproc(Run &r, const Job &job, const Vec &v, std::string &precan
 	if (v.size() <= 2) { s.sweep("init|" + std::string(kindname[job.kind]) + "|-", Key(), REMOVE, "initial state"); precanon = out.canon; }
 	for (size_t i = 1; i < v.size() && ok; ++i) {
 		const OpSpec &o = job.ops[v[i]];
-		r.hint((std::string(o.kind == ASSIGN ? "assign" : "remove") + "|" + s.store(o.target) + "|" + Sys::pclass(pool[o.path]).substr(0, Sys::pclass(pool[o.path]).find(','))).c_str());
+		r.hint((std::string(opword(o.kind)) + "|" + s.store(o.target) + "|" + Sys::pclass(pool[o.path]).substr(0, Sys::pclass(pool[o.path]).find(','))).c_str());
 		if (i + 1 == v.size()) out.cnt.clear();      // counters describe the last step only
 		ok = s.apply(o, i + 2 >= v.size());
 		if (i + 2 == v.size()) precanon = out.canon;
 	}
 	if (ok && v.size() > 1) {
 		const OpSpec &o = job.ops[v.back()];
-		s.teardown(std::string(o.kind == ASSIGN ? "assign" : "remove") + "|" + s.store(o.target) + "|" + Sys::pclass(pool[o.path]), "history ending with " + opname(job, (int) v.back()));
+		s.teardown(std::string(opword(o.kind)) + "|" + s.store(o.target) + "|" + Sys::pclass(pool[o.path]), "history ending with " + opname(job, (int) v.back()));
 	}
 	return out;
 }
@@ -684,6 +717,7 @@ static void explore_store(Run &r, const Job &job)
 	r.additive = false;
 	r.require("nontrivial"); r.require("assign:overwrite"); r.require("query:hit-expected"); r.require("query:absence-expected");
 	r.require("assign:beneath-a-valued-path"); r.require("assign:above-valued-paths"); r.require("assign:value>=250 bytes");
+	r.require("copy:onto-itself"); r.require("copy:from-other-path");
 	r.require("remove:inner-with-keys-beneath"); r.require("remove:leaf"); r.require("remove:absent"); r.require("remove:everything");
 	if (job.kind == CXX) { explore_inproc(r, job); return; }
 	g_phase = (char *) mmap(0, 4096, PROT_READ | PROT_WRITE, MAP_SHARED | MAP_ANONYMOUS, -1, 0);
